@@ -100,6 +100,13 @@ def r21(repo, ctx):
                 return None
         return None
 
+    g0 = C.build(f)
+    dom = C.dominators(g0)
+    ln = [n for n in g0.nodes if n.kind == 'for' and n.ast is loop]
+    rets0 = [n for n in g0.nodes if n.kind == 'stmt' and isinstance(n.ast, ast.Return)]
+    bypass = [r for r in rets0 if not (ln and ln[0].id in dom[r.id])]
+    ctx.check(bool(rets0) and not bypass, 'R2.1', EULER, q, bypass[0].ast if bypass else f, 'every return of _calcMassBalance is dominated by the per-phase statistics loop',
+              'the statistics of the re-used record are not recomputed on a path to a return (stale density / radius / volume fraction)', construct=U.src(bypass[0].ast) if bypass else 'returns dominated by the phase loop')
     found = {'precipitateDensity': 0, 'Ravg': 0}
     for st in loop.body:
         for node in ast.walk(st):
